@@ -1,5 +1,5 @@
 (* Props/C09.v — property C09: World lifecycle and hook contract within an attempt. *)
-From CV Require Import Model.Base Model.Events Model.Attempt Model.AttemptSpec Proofs.BaseP Proofs.AttemptP.
+From CV Require Import Model.Base Model.Events Model.Attempt Model.AttemptSpec Proofs.BaseP Proofs.AttemptP Proofs.AttemptP2.
 
 (* the after hook runs exactly once iff it is set — also after a failed or skipped step or a failed
    before hook — and it is the last callback of the attempt *)
@@ -26,3 +26,16 @@ Example C09_nonvacuous :
   ao_calls (run_attempt (mk_attempt_in (Some None) (Some None) WOk [(10, OMatch None)] [] [(11, OMatch (Some 5)); (12, OMatch None)] None))
   = [CWorldNew; CBefore []; CStep 10 [0]; CStep 11 [0; 10]; CAfter (RStepFailed (EPanic 5)) (Some [0; 10; 11])].
 Proof. vm_compute. reflexivity. Qed.
+
+(* THE WHOLE LIFECYCLE CONTRACT on the model: for every attempt — any combination of hooks (absent, passing,
+   panicking), any outcome of World::new (ok, Err, panic), any background and own steps with any outcome (no match,
+   ambiguous, passing, panicking) — the callback log and the events satisfy the independent recogniser c09_ok:
+   a World is created at most once and exactly when a before hook is set or a step matched; the before hook runs
+   first, on the fresh World; every step sees exactly the mutations of everything before it; the after hook runs
+   exactly once iff set, last, with the final World (if one exists) and the true reason the step phase ended *)
+Theorem C09_model_satisfies_the_lifecycle_contract :
+  forall i,
+    c09_ok (is_some (ai_before i)) (is_some (ai_after i)) (ao_events (run_attempt i))
+           (map (fun c => (c, None)) (ao_calls (run_attempt i))) = true.
+Proof. exact attempt_c09. Qed.
+Print Assumptions C09_model_satisfies_the_lifecycle_contract.
